@@ -982,7 +982,22 @@ pub fn run_case_on<T: Target>(case: &Case, pin: bool) -> RunResult {
     // the first operation of this case whose closure / predicate panicked (C18)
     let mut panicked_before: Option<String> = None;
     let mut promise: Vec<Option<(usize, isize, String)>> = vec![None, None, None, None];
+    // the latest operation that was not a dump / read of the whole map: when the first difference of
+    // a case shows up in the dump that follows it, that operation is the one that went wrong
+    let mut prev_mut_op = String::new();
+    let mut pending_prev: Option<String> = None;
     for (opi, op) in case.ops.iter().enumerate() {
+        if let Some(p) = pending_prev.take() {
+            prev_mut_op = p;
+        }
+        {
+            let this_line = op.line(case);
+            let head = this_line.split(' ').next().unwrap_or("");
+            let read_only = ["snap", "len", "isempty", "iter", "keys", "values", "get", "getkv", "has", "contains", "debug", "eq", "index", "subset", "superset", "disjoint"].contains(&head);
+            if !read_only {
+                pending_prev = Some(this_line);
+            }
+        }
         crate::HEARTBEAT.fetch_add(1, std::sync::atomic::Ordering::Relaxed);
         let mut expect: Option<String> = None;
         let outcome = catch_unwind(AssertUnwindSafe(|| -> String {
@@ -1269,14 +1284,15 @@ pub fn run_case_on<T: Target>(case: &Case, pin: bool) -> RunResult {
         if let Some(e) = expect {
             if e != line {
                 res.failures.push(format!(
-                    "[answer:{}] case {} op {} `{}`: implementation answered `{}`, reference answered `{}`{}",
+                    "[answer:{}] case {} op {} `{}`: implementation answered `{}`, reference answered `{}`{}{}",
                     op.line(case).split(' ').next().unwrap_or(""),
                     case.id,
                     opi,
                     op.line(case),
                     line,
                     e,
-                    panicked_before.as_ref().map(|p| format!(" (after a panic in op {})", p)).unwrap_or_default()
+                    panicked_before.as_ref().map(|p| format!(" (after a panic in op {})", p)).unwrap_or_default(),
+                    if res.failures.is_empty() && !prev_mut_op.is_empty() { format!(" [first difference of the case; the preceding operation was `{}`]", prev_mut_op) } else { String::new() }
                 ));
             }
         } else if let (Op::Retain { pred, panic_at: Some(_), .. }, "ok") = (op, line.as_str()) {
